@@ -21,6 +21,14 @@ W: a table of cells = rule x syntactic context x tool.  Every mutant is ill-form
    context `<kind>:<type class>` = assignment to every kind of immutable binding (param, let, global, loop-variable,
    match-binding, closure-param, closure-let, closure-capture) x type class of the binding (int string bool float arr
    struct P, union Sh, enum Color, tup, fn), so that a rule that stops applying to ONE class of symbols is its own cell.
+   NAME COINCIDENCE: both binding rules (`set-immutable-binding`, `binding-used-at-wrong-type`) also exist with an earlier
+   function's `let mut` / a mutable global of the SAME NAME (`<kind>:<class>+same-name-...`): of the binding's own type for
+   the assignment, of the wrongly expected type for the use, so a mix-up of the two symbols makes the violation look legal.
+   `scope-after-exiting-block`, context `<slot>~<block kind>-<exit>`: out-of-scope use of a name declared in a block that is
+   left by return / break / continue (if, else, while, for, match arm, unsafe, nested if).
+   Controls are graded: a hand-written base the tree under test does not accept is left out and reported (evidence
+   `bases_not_accepted`; inconclusive only if < 3 of b1-b5 or < 60 % of the hand bases remain); every site that brings
+   declarations of its own has a twin control (same change without the violation) and is left out if the twin is not accepted.
    Known findings are individual cells: key `cell|<rule>|<context>|<tool>|<outcome class>`.
 
 Outcome classes per run:  rejected | rejected-late-by-cc (nanoc: no diagnostic of its own, the C compiler's
